@@ -143,6 +143,12 @@ class FnCtx:
                         if "&" in (d.get("t") or ""):
                             self.ref_bind[d["decl"]] = d["init"]
                 continue
+            if (k == "UnaryOperator" and n.get("op") in ("++", "--")) or \
+                    (k == "CXXOperatorCallExpr" and n.get("op") in ("++", "--", "+=", "-=")):
+                c0 = n.get("c") or []
+                t0 = _unwrap(c0[0] if k == "UnaryOperator" else (c0[1] if len(c0) > 1 else None))
+                if t0 is not None and t0.get("k") == "DeclRefExpr" and t0["ref"].get("dk") == "local":
+                    assigned.add(t0["ref"].get("decl"))
             tgt, rhs = self.eng.write_target(n)
             if tgt is None:
                 continue
@@ -160,7 +166,8 @@ class FnCtx:
                         add(a0["ref"]["decl"], ("outparam", n, idx))
         self.local_defs = defs
         for d, init in inits.items():
-            if d not in assigned:
+            # compiler-generated range-for variables (__range1, __begin1) are always inlined
+            if d not in assigned or (self.local_names.get(d) or "").startswith("__"):
                 self.single_init[d] = init
 
     def solve(self):
@@ -269,9 +276,16 @@ class FnCtx:
         fn = eng.fx.functions.get(n.get("calleeKey"))
         if fn is not None and fn.body is not None and n.get("k") not in (
                 "CXXConstructExpr", "CXXTemporaryObjectExpr"):
-            v = eng.summary(fn, argv, eng.param_offset(n))
-            if v is not None:
-                return v
+            res = eng.summary(fn, argv)
+            if res is not None:
+                lv, pidx = res
+                if pidx is not None and pidx < len(argv):
+                    v = Val(lv, argv[pidx].root, argv[pidx].amb)
+                elif lv:
+                    v = Val(lv, objv.root if objv.lv >= lv else self.rtext(n))
+                else:
+                    v = V_CLEAN
+                return join(v, objv) if objv.lv > v.lv else v
         v = objv
         for a in argv:
             v = join(v, a)
@@ -286,13 +300,23 @@ class FnCtx:
         return self.eng.param_join(self.fn, i)
 
     # ---- root text (stable part of the instance key)
+    def text(self, n):
+        """Literal rendering of an expression (for messages)."""
+        self._noinline = True
+        try:
+            return self.rtext(n)
+        finally:
+            self._noinline = False
+
+    _noinline = False
+
     def rtext(self, n, depth=0):
         """F.expr_text with never re-assigned locals replaced by their initialiser, so that the
         text does not depend on the spelling of such locals."""
         if n is None:
             return ""
         k = n.get("k")
-        if k == "DeclRefExpr" and n["ref"].get("dk") == "local" and depth < 4:
+        if k == "DeclRefExpr" and n["ref"].get("dk") == "local" and depth < 12 and not self._noinline:
             if self.local_defs is None:
                 self._collect()
             init = self.single_init.get(n["ref"].get("decl"))
@@ -302,7 +326,7 @@ class FnCtx:
                     return self.rtext(init, depth + 1)
             return n["ref"].get("name", "?")
         c = n.get("c") or []
-        if not c or depth > 8:
+        if not c or depth > 16:
             return F.expr_text(n)
         # render with substituted children: reuse expr_text on a shallow copy is not possible
         # (children are rendered recursively), so mirror the few shapes that occur in roots
@@ -310,12 +334,13 @@ class FnCtx:
             base = self.rtext(c[0], depth + 1)
             if base in ("this", ""):
                 return n.get("member", "?")
-            if c[0].get("k") in ("UnaryOperator", "BinaryOperator", "ConditionalOperator"):
+            if base.startswith("*") or c[0].get("k") in ("BinaryOperator", "ConditionalOperator"):
                 base = "(" + base + ")"
             return base + ("->" if n.get("arrow") else ".") + n.get("member", "?")
-        if k == "CXXMemberCallExpr":
+        if k in ("CXXMemberCallExpr", "CallExpr"):
             return "%s(%s)" % (self.rtext(c[0], depth + 1),
-                               ", ".join(self.rtext(a, depth + 1) for a in c[1:]))
+                               ", ".join(self.rtext(a, depth + 1) for a in c[1:]
+                                         if a.get("k") != "CXXDefaultArgExpr"))
         if k == "UnaryOperator":
             inner = self.rtext(c[0], depth + 1)
             return inner + n.get("op", "") if n.get("postfix") else n.get("op", "") + inner
@@ -330,6 +355,8 @@ class FnCtx:
             if op == "()" and a:
                 return "%s(%s)" % (self.rtext(a[0], depth + 1),
                                    ", ".join(self.rtext(x, depth + 1) for x in a[1:]))
+            if len(a) == 2:
+                return "%s %s %s" % (self.rtext(a[0], depth + 1), op, self.rtext(a[1], depth + 1))
         if k in ("CXXConstructExpr", "CXXTemporaryObjectExpr") and len(c) == 1:
             return self.rtext(c[0], depth + 1)
         if k in _CASTS:
@@ -349,12 +376,13 @@ class TaintEngine:
         self.stream_classes = [re.compile(p) for p in table.get("stream_classes", {})]
         self.buffer_fields = set(table.get("buffer_fields", {}))
         self.ctxs = {}
+        self._prev_locals = {}
         self._summ = {}
-        self._summ_active = set()
         self._param = {}
-        self._param_active = set()
         self._field = {}
-        self._field_active = set()
+        self._active = set()
+        self._done = set()
+        self.changed = False
         self._calls_by_key = None
         self._field_defs = None
         self._enum_names = set(fx.enums)
@@ -462,25 +490,45 @@ class TaintEngine:
         c = self.ctxs.get(fn.key)
         if c is None:
             c = self.ctxs[fn.key] = FnCtx(self, fn)
+            c.locals = dict(self._prev_locals.get(fn.key, {}))
         c.solve()
         return c
 
+    # ---- global fixpoint: every memo table holds the current approximation (values only grow);
+    # a round recomputes each entry once, a lookup of an entry that is being computed returns the
+    # approximation of the previous round; rounds are repeated until nothing changes.
+    def begin_round(self):
+        for k, c in self.ctxs.items():
+            self._prev_locals[k] = c.locals
+        self.ctxs = {}
+        self._done = set()
+        self._active = set()
+        self.changed = False
+
+    def _fix(self, store, key, compute):
+        if key in self._done or key in self._active:
+            return store.get(key, V_CLEAN)
+        self._active.add(key)
+        try:
+            v = compute()
+        finally:
+            self._active.discard(key)
+        old = store.get(key, V_CLEAN)
+        new = join(old, v)
+        if new.lv != old.lv:
+            self.changed = True
+        store[key] = new
+        self._done.add(key)
+        return new
+
     # ---- summaries: value returned by a callee for given argument values
-    def summary(self, fn, argv, offset=0):
-        key = (fn.key, tuple(a.lv for a in argv))
-        if key in self._summ:
-            lv, pidx = self._summ[key]
-            if lv == CLEAN:
-                return V_CLEAN
-            if pidx is not None and pidx < len(argv):
-                return Val(lv, argv[pidx].root, argv[pidx].amb)
-            return Val(lv, F.short(fn.rec["qn"]) + "()")
-        if key in self._summ_active or len(self._summ_active) > 40:
-            v = V_CLEAN
-            for a in argv:
-                v = join(v, a)
-            return v
-        self._summ_active.add(key)
+    def summary(self, fn, argv):
+        """(level, index of the argument the value derives from or None) of the value returned
+        by fn for the given argument values."""
+        key = ("S", fn.key, tuple(a.lv for a in argv))
+        if key in self._done or key in self._active:
+            return self._summ.get(key, (CLEAN, None))
+        self._active.add(key)
         try:
             env = [Val(a.lv, "\0p%d" % i, a.amb) for i, a in enumerate(argv)]
             while len(env) < len(fn.params):
@@ -494,12 +542,18 @@ class TaintEngine:
                     if val is not None:
                         v = join(v, c.ev(val))
         finally:
-            self._summ_active.discard(key)
+            self._active.discard(key)
         pidx = None
-        if v.lv and v.root and v.root.startswith("\0p"):
+        if v.lv and v.root and v.root.startswith("\0p") and not v.amb:
             pidx = int(v.root[2:])
-        self._summ[key] = (v.lv, pidx)
-        return self.summary(fn, argv, offset)
+        old = self._summ.get(key, (CLEAN, None))
+        if v.lv > old[0]:
+            self._summ[key] = (v.lv, pidx)
+            self.changed = True
+        elif key not in self._summ:
+            self._summ[key] = old
+        self._done.add(key)
+        return self._summ[key]
 
     # ---- parameters: join over the call sites of the analysed sources
     def calls_by_key(self):
@@ -514,18 +568,12 @@ class TaintEngine:
         return self._calls_by_key
 
     def param_join(self, fn, i):
-        key = (fn.key, i)
-        if key in self._param:
-            return self._param[key]
-        if key in self._param_active:
-            return V_CLEAN
         t = norm_type(fn.params[i].get("t"))
         if self.is_untaintable_type(t):
-            self._param[key] = V_CLEAN
             return V_CLEAN
-        self._param_active.add(key)
-        v = V_CLEAN
-        try:
+
+        def compute():
+            v = V_CLEAN
             keys = [fn.key] + [o.get("key") for o in fn.rec.get("overrides", []) if o.get("key")]
             for k in keys:
                 for caller, n in self.calls_by_key().get(k, []):
@@ -534,10 +582,8 @@ class TaintEngine:
                         a = self.ctx(caller).ev(args[i])
                         if a.lv:
                             v = join(v, Val(a.lv, "%s@%s" % (a.root, caller.where(n)), a.amb))
-        finally:
-            self._param_active.discard(key)
-        self._param[key] = v
-        return v
+            return v
+        return self._fix(self._param, ("P", fn.key, i), compute)
 
     # ---- fields: join over every write in the analysed sources
     def field_defs(self):
@@ -568,18 +614,12 @@ class TaintEngine:
         return self._field_defs
 
     def field_val(self, owner, name):
-        key = (owner, name)
-        if key in self._field:
-            return self._field[key]
-        if key in self._field_active:
-            return V_CLEAN
         if (owner + "::" + name) in self.buffer_fields:
-            self._field[key] = V_CLEAN     # a markup buffer: every write into it is a checked sink
-            return V_CLEAN
-        self._field_active.add(key)
-        v = V_CLEAN
-        try:
-            for f, rhs in self.field_defs().get(key, []):
+            return V_CLEAN     # a markup buffer: every write into it is a checked sink
+
+        def compute():
+            v = V_CLEAN
+            for f, rhs in self.field_defs().get((owner, name), []):
                 c = self.ctx(f)
                 if isinstance(rhs, tuple):
                     x = self.outparam_val(c, rhs[1], rhs[2])
@@ -588,10 +628,8 @@ class TaintEngine:
                         continue
                     x = c.ev(rhs)
                 v = join(v, x)
-        finally:
-            self._field_active.discard(key)
-        self._field[key] = v
-        return v
+            return v
+        return self._fix(self._field, ("F", owner, name), compute)
 
     def _is_sink_write(self, f, rhs):
         """A `<<` into a stream-typed field of an in-scope class is a checked sink, not a store."""
@@ -599,34 +637,40 @@ class TaintEngine:
         return p is not None and p.get("k") == "CXXOperatorCallExpr" and p.get("op") == "<<"
 
     # ---- out-parameters: what a callee writes into the object passed as argument idx
+    @staticmethod
+    def _writable_ref(ptype):
+        """Parameter type through which the callee can modify the caller's object."""
+        if not ptype or ("&" not in ptype and "*" not in ptype) or "&&" in ptype:
+            return False
+        return not re.match(r"^\s*const\b", ptype)
+
     def outparam_val(self, cctx, call, idx):
+        """Value of what the callee writes into the object passed as argument idx."""
         fn = self.fx.functions.get(call.get("calleeKey"))
-        if fn is None or fn.body is None and not fn.rec.get("inits"):
-            # unknown callee taking a stream/string by reference: library code formats its other
-            # arguments into it (getline etc. do not occur in the writers)
+        if fn is None or (fn.body is None and not fn.rec.get("inits")):
+            pt = call.get("paramT") or []
+            off = self.param_offset(call)
+            ptype = pt[idx] if idx < len(pt) else ""
+            if call.get("k") == "CXXOperatorCallExpr" and not call.get("memberOp"):
+                ptype = pt[idx] if idx < len(pt) else ""
+            if not self._writable_ref(ptype):
+                return V_CLEAN
+            # library code taking a stream/string by non-const reference (getline, swap ...):
+            # its other arguments may end up in it
             v = V_CLEAN
-            args = self.value_args(call)
-            for j, a in enumerate(args):
+            for j, a in enumerate(self.value_args(call)):
                 if j != idx:
                     v = join(v, cctx.ev(a))
             return v
         if idx >= len(fn.params):
             return V_CLEAN
-        ptype = fn.params[idx].get("t", "")
-        if "&" not in ptype and "*" not in ptype:
-            return V_CLEAN                      # passed by value
-        if re.search(r"\bconst\b", ptype.split("&")[0].split("*")[0]) and "*" not in ptype:
-            return V_CLEAN                      # const reference: cannot be written
+        if not self._writable_ref(fn.params[idx].get("t", "")):
+            return V_CLEAN
         if self.in_scope(fn):
             return V_CLEAN                      # writes inside a writer scope are checked sinks there
-        key = ("out", fn.key, idx)
-        if key in self._field:
-            return self._field[key]
-        if key in self._field_active:
-            return V_CLEAN
-        self._field_active.add(key)
-        v = V_CLEAN
-        try:
+
+        def compute():
+            v = V_CLEAN
             c = self.ctx(fn)
             pdecl = fn.params[idx].get("decl")
             # constructor storing the reference in a field: the content is what the class writes
@@ -651,10 +695,9 @@ class TaintEngine:
                         a0 = _unwrap(a)
                         if a0.get("k") == "DeclRefExpr" and a0["ref"].get("decl") == pdecl:
                             v = join(v, self.outparam_val(c, n, pi))
-        finally:
-            self._field_active.discard(key)
-        self._field[key] = v
-        return v
+            return v
+        v = self._fix(self._field, ("O", fn.key, idx), compute)
+        return Val(v.lv, F.short(fn.rec["qn"]) + "(...)") if v.lv else v
 
 
 # =========================================================================== R-ESC driver
@@ -761,7 +804,48 @@ def _sinks(eng, c):
     return res
 
 
-def run_esc(ctx, rule, scope_name, table=None):
+def _attr_quote(prev):
+    """Quote character if the literal written just before an operand opens an attribute value."""
+    p0 = _unwrap(prev) if prev is not None else None
+    if p0 is not None and p0.get("k") == "StringLiteral" and isinstance(p0.get("v"), str):
+        m = re.search(r"=\s*([\"'])$", p0["v"])
+        if m:
+            return m.group(1)
+    return None
+
+
+def _evaluate(eng, fns):
+    """One round: every sink leaf of every scope function with its value and, if the literal
+    written immediately before it opens an attribute value, the quote character."""
+    res = []
+    for fn in fns:
+        c = eng.ctx(fn)
+        for node, operands, what in _sinks(eng, c):
+            prev = None
+            if node.get("k") == "CXXOperatorCallExpr" and node.get("op") == "<<":
+                inner = _unwrap((node.get("c") or [None, None])[1])
+                if inner is not None and inner.get("k") == "CXXOperatorCallExpr" and inner.get("op") == "<<" \
+                        and len(inner.get("c") or []) == 3:
+                    pl = []
+                    _flatten(eng, inner["c"][2], pl)
+                    prev = pl[-1] if pl else None
+            leaves = []
+            for o in operands:
+                _flatten(eng, o, leaves)
+            for leaf in leaves:
+                res.append((fn, c, leaf, c.ev(leaf), what, _attr_quote(prev)))
+                prev = leaf
+    return res
+
+
+_RESULTS = {}
+
+
+def scope_results(ctx, scope_name, table=None):
+    """Converged sink leaves of one scope (cached per fact base)."""
+    ck = (id(ctx.facts), scope_name)
+    if ck in _RESULTS and table is None:
+        return _RESULTS[ck]
     fx = ctx.facts
     table = table or engine.load_table("esc.json")
     spec = table["scopes"][scope_name]
@@ -771,58 +855,70 @@ def run_esc(ctx, rule, scope_name, table=None):
                  key=lambda f: (f.file, f.line, f.key))
     for anchor in spec.get("anchors", []):
         fx.fn(anchor)
-    n_sinks = 0
-    n_ok = 0
-    n_bad = 0
+    for s in eng.sanitizers:
+        fx.fn(s)
+    rounds = 0
+    while True:
+        rounds += 1
+        eng.begin_round()
+        leaves = _evaluate(eng, fns)
+        if not eng.changed:
+            break
+        if rounds > 12:
+            raise AnalysisBroken("R-ESC %s: taint propagation did not converge" % scope_name)
+    _RESULTS[ck] = (eng, spec, leaves, rounds)
+    return _RESULTS[ck]
+
+
+def run_esc(ctx, rule, scope_name, table=None):
+    eng, spec, leaves, rounds = scope_results(ctx, scope_name, table)
+    n_sinks = len(leaves)
+    n_ok = n_bad = 0
     seen = {}
     per_file = {}
-    for fn in fns:
-        c = eng.ctx(fn)
-        sinks = _sinks(eng, c)
-        if not sinks:
+    by_fn = {}
+    for fn, c, leaf, v, what, quote in leaves:
+        per_file[fn.file] = per_file.get(fn.file, 0) + 1
+        if v.lv == CLEAN:
             continue
+        by_fn.setdefault(fn.key, []).append((fn, c, leaf, v, what))
+    for items in by_fn.values():
+        fn = items[0][0]
         ctx.saw(fn)
         counts = {}
-        pending = []
-        for node, operands, what in sinks:
-            leaves = []
-            for o in operands:
-                _flatten(eng, o, leaves)
-            for leaf in leaves:
-                n_sinks += 1
-                per_file[fn.file] = per_file.get(fn.file, 0) + 1
-                v = c.ev(leaf)
-                if v.lv == CLEAN:
-                    continue
-                root = v.root or c.rtext(leaf)
-                root = root.split("@")[0] if v.root and "@" in v.root and leaf.get("k") != "DeclRefExpr" else root
-                if leaf.get("k") == "DeclRefExpr" and leaf["ref"].get("dk") == "parm":
-                    root = leaf["ref"].get("name")
-                pending.append((root, v, leaf, what))
-                counts[root] = counts.get(root, 0) + 1
+        rooted = []
+        for fn, c, leaf, v, what in items:
+            root = v.root or c.rtext(leaf)
+            prov = None
+            if leaf.get("k") == "DeclRefExpr" and leaf["ref"].get("dk") == "parm":
+                root = leaf["ref"].get("name")
+                i = c.param_index.get(leaf["ref"].get("decl"))
+                pv = eng.param_join(fn, i) if i is not None else V_CLEAN
+                prov = pv.root if pv.lv else "parameter of a tainted type"
+            rooted.append((root, prov, c, leaf, v, what))
+            counts[root] = counts.get(root, 0) + 1
         ordn = {}
-        for root, v, leaf, what in pending:
+        for root, prov, c, leaf, v, what in rooted:
             key = "%s:%s" % (fn.sig, root)
             if counts[root] > 1:
                 ordn[root] = ordn.get(root, 0) + 1
                 key += "#%d" % ordn[root]
             ok = v.lv == SAN
-            if key in seen:
-                if seen[key] == ok:
-                    continue          # same instance in another instantiation of the template
+            if seen.get(key) == ok:
+                continue              # same instance in another instantiation of a template
             seen[key] = ok
-            detail = {"operand": F.expr_text(leaf), "value": LEVEL[v.lv], "sink": what}
-            if v.root and "@" in v.root:
-                detail["tainted_at"] = v.root
+            detail = {"operand": c.text(leaf), "value": LEVEL[v.lv], "sink": what}
+            if prov:
+                detail["tainted_by"] = prov
             if ok:
                 n_ok += 1
                 ctx.ok(rule, key, fn.where(leaf), fn.short, detail=detail)
             else:
                 n_bad += 1
                 ctx.bad(rule, key, fn.where(leaf), fn.short,
-                        msg="`%s` (%s) is written to the markup without the sanitiser %s"
-                        % (F.expr_text(leaf), v.root if v.root else "tainted",
-                           "/".join(sorted(F.short(s) for s in eng.sanitizers))), detail=detail)
+                        msg="`%s` carries %s and is written to the markup (%s) without the sanitiser %s"
+                        % (c.text(leaf), prov or root, what,
+                           "/".join(sorted(F.short(x) for x in eng.sanitizers))), detail=detail)
     fl = spec.get("floors", {})
     ctx.floor(rule, fl.get("sinks", 1), n_sinks, "%s: sink operands analysed" % scope_name)
     ctx.floor(rule, fl.get("instances", 1), n_ok + n_bad, "%s: operands carrying tainted data" % scope_name)
@@ -830,7 +926,7 @@ def run_esc(ctx, rule, scope_name, table=None):
         ctx.floor(rule, fl["sanitised"], n_ok, "%s: sanitised sink operands" % scope_name)
     for f, m in fl.get("per_file", {}).items():
         ctx.floor(rule, m, per_file.get(f, 0), "%s: sink operands in %s" % (scope_name, f))
-    return {"sinks": n_sinks, "ok": n_ok, "bad": n_bad, "per_file": per_file}
+    return {"sinks": n_sinks, "ok": n_ok, "bad": n_bad, "per_file": per_file, "rounds": rounds}
 
 
 def rule_esc_adjxml(ctx):
@@ -843,3 +939,574 @@ def rule_esc_export(ctx):
 
 def rule_esc_g3(ctx):
     return run_esc(ctx, "R-ESC", "g3")
+
+
+# =========================================================================== sanitiser audit
+
+_ENTITIES = [(ord("<"), "<", "&lt;"), (ord(">"), ">", "&gt;"), (ord("&"), "&", "&amp;"),
+             (ord('"'), '"', "&quot;"), (ord("'"), "'", "&apos;")]
+_NAMES = {"<": "lt", ">": "gt", "&": "amp", '"': "quot", "'": "apos"}
+
+
+def _equivalents(ch, entity):
+    """Spellings of the escaped character that an XML parser reads back as ch."""
+    return {entity, "&#%d;" % ord(ch), "&#x%x;" % ord(ch), "&#x%X;" % ord(ch), "&#%03d;" % ord(ch)}
+
+
+def _char_const(n):
+    n = _unwrap(n) if n is not None else None
+    if n is not None and n.get("k") in ("CharacterLiteral", "IntegerLiteral") and isinstance(n.get("v"), int):
+        return n["v"]
+    return None
+
+
+def _appended_literals(eng, sub, buf_decls):
+    """String / character literals appended to the result string inside statement `sub`."""
+    out = []
+    for n in walk(sub):
+        tgt, rhs = eng.write_target(n)
+        if tgt is None:
+            continue
+        t0 = _unwrap(tgt)
+        if t0.get("k") == "DeclRefExpr" and t0["ref"].get("decl") in buf_decls:
+            for r in rhs:
+                leaves = []
+                _flatten(eng, r, leaves)
+                for leaf in leaves:
+                    l0 = _unwrap(leaf)
+                    if l0.get("k") == "StringLiteral":
+                        out.append(l0.get("v"))
+                    elif l0.get("k") == "CharacterLiteral":
+                        out.append(chr(l0.get("v")))
+                    else:
+                        out.append(None)          # the character itself or something computed
+    return out
+
+
+def extract_char_map(eng, fn):
+    """special character code -> list of replacement literals (None = copied through), from the
+    comparisons (`c == 'x'`, `case 'x':`) that guard appends to the returned string."""
+    c = eng.ctx(fn)
+    bufs = _markup_buffers(eng, c)
+    mapping = {}
+    default = []
+    for n in fn.walk():
+        k = n.get("k")
+        if k == "IfStmt":
+            cond = n.get("cond")
+            code = None
+            if cond is not None and cond.get("k") == "BinaryOperator" and cond.get("op") == "==":
+                a, b = cond["c"]
+                code = _char_const(a)
+                if code is None:
+                    code = _char_const(b)
+            if code is not None:
+                mapping.setdefault(code, []).extend(_appended_literals(eng, n.get("then"), bufs))
+                if n.get("else") is not None and n["else"].get("k") != "IfStmt":
+                    default.extend(_appended_literals(eng, n["else"], bufs))
+        elif k == "SwitchStmt":
+            body = n.get("body")
+            stmts = (body.get("c") or []) if body is not None else []
+            current = []
+            for st in stmts:
+                x = st
+                labels = []
+                while x is not None and x.get("k") in ("CaseStmt", "DefaultStmt"):
+                    labels.append(x.get("v") if x.get("k") == "CaseStmt" else "default")
+                    x = x.get("sub") or ((x.get("c") or [None])[-1])
+                if labels:
+                    current = labels
+                if x is None:
+                    continue
+                lits = _appended_literals(eng, x, bufs)
+                for lab in current:
+                    if lab == "default":
+                        default.extend(lits)
+                    elif isinstance(lab, int):
+                        mapping.setdefault(lab, []).extend(lits)
+                if any(y.get("k") in ("BreakStmt", "ReturnStmt") for y in walk(x)):
+                    current = []
+    return mapping, default
+
+
+def rule_str2xml(ctx):
+    """R-ESC sanitiser audit: the five XML special characters map to their predefined entities."""
+    rule = "R-ESC"
+    fx = ctx.facts
+    table = engine.load_table("esc.json")
+    eng = TaintEngine(fx, table)
+    eng.begin_round()
+    n_maps = 0
+    for san in sorted(eng.sanitizers):
+        cands = [f for f in fx.fns(san) if f.body is not None and f.params and
+                 eng.is_string_type(f.params[0].get("t", "").replace("&", ""))]
+        if not cands:
+            raise AnalysisBroken("sanitiser %s(const std::string&) not found" % san)
+        fn = cands[0]
+        ctx.saw(fn)
+        mapping, default = extract_char_map(eng, fn)
+        n_maps += len(mapping)
+        # sanitised operands written inside a quoted attribute value need the quote escaped
+        attr_uses = {'"': [], "'": []}
+        for scope_name in sorted(table["scopes"]):
+            for f2, c2, leaf, v, what, quote in scope_results(ctx, scope_name)[2]:
+                if v.lv == SAN and quote:
+                    attr_uses[quote].append("%s %s" % (f2.where(leaf), c2.text(leaf)))
+        for code, ch, entity in _ENTITIES:
+            key = "%s:entity:%s" % (F.short(san), _NAMES[ch])
+            got = mapping.get(code)
+            detail = {"expected": entity, "found": got}
+            if got is None:
+                if ch in "<&":
+                    needed = ["always: markup delimiter"]
+                elif ch == ">":
+                    needed = []           # only the sequence ]]> is forbidden in content
+                else:
+                    needed = attr_uses[ch]
+                detail["needed_by"] = needed[:10]
+                if needed:
+                    ctx.bad(rule, key, fn.where(), fn.short,
+                            msg="%s has no case for the character %r (it is copied unescaped, must become %s); "
+                            "needed by %d sanitised operand(s), e.g. %s" % (F.short(san), ch, entity, len(needed), needed[0]),
+                            detail=detail)
+                else:
+                    ctx.ok(rule, key, fn.where(), fn.short,
+                           msg="%r is copied unescaped; harmless today: no sanitised operand is written inside a "
+                           "%s-delimited attribute value" % (ch, ch), detail=detail)
+            elif len(got) != 1 or got[0] not in _equivalents(ch, entity):
+                ctx.bad(rule, key, fn.where(), fn.short,
+                        msg="%s maps %r to %r, which does not read back as %r (the XML entity is %s)"
+                        % (F.short(san), ch, got, ch, entity), detail=detail)
+            else:
+                ctx.ok(rule, key, fn.where(), fn.short, detail=detail)
+        # every other character must be copied unchanged
+        others = {k: v for k, v in mapping.items() if k not in {e[0] for e in _ENTITIES}}
+        key = "%s:other-characters-copied" % F.short(san)
+        bad = {chr(k): v for k, v in others.items() if v != [None] and v != [chr(k)]}
+        ctx.report(rule, key, not bad and default == [None], fn.where(), fn.short,
+                   msg="" if (not bad and default == [None]) else
+                   "characters other than the five specials are not copied unchanged: %s default=%s" % (bad, default),
+                   detail={"default": default, "others": {chr(k): v for k, v in others.items()}})
+    ctx.floor(rule, 3, n_maps, "str2xml: characters with an explicit replacement")
+    return {"str2xml_cases": n_maps}
+
+
+# =========================================================================== R-YSIGN
+
+_RANK = {"N": 0, "S": 1, "R": 2, "Y": 3}
+_MUL = {("N", "N"): "N", ("N", "S"): "S", ("N", "R"): "R", ("N", "Y"): "Y",
+        ("S", "S"): "N", ("S", "R"): "Y", ("S", "Y"): "R",
+        ("R", "R"): "N", ("R", "Y"): "S", ("Y", "Y"): "N"}
+_ADD = {("N", "N"): "N", ("N", "S"): "N", ("N", "R"): "R", ("N", "Y"): "Y",
+        ("S", "S"): "S", ("S", "R"): "R", ("S", "Y"): "Y",
+        ("R", "R"): "R", ("R", "Y"): "Y", ("Y", "Y"): "Y"}
+_STATE_TXT = {"Y": "internal (sign-flipped) y", "R": "y restored by the y-sign", "S": "y-sign factor", "N": "no y"}
+_NUMERIC = {"double", "float", "long double", "int", "long", "unsigned int", "unsigned long", "short",
+            "long long", "unsigned long long"}
+
+
+def _sjoin(a, b):
+    return a if _RANK[a] >= _RANK[b] else b
+
+
+def _smul(a, b):
+    return _MUL.get((a, b)) or _MUL[(b, a)]
+
+
+def _sadd(a, b):
+    return _ADD.get((a, b)) or _ADD[(b, a)]
+
+
+class SignCtx:
+    """Sign-algebra state of the numeric locals of one function (flow-insensitive fixpoint)."""
+
+    def __init__(self, eng, fn):
+        self.eng = eng
+        self.fn = fn
+        self.locals = {}
+        self.defs = []           # (decl, kind, node)  kind: 'set' rhs / 'op' compound-assign node
+        self.idx_y = set()       # int locals initialised from index_y()
+        self.param_index = {p["decl"]: i for i, p in enumerate(fn.params)}
+        self.tctx = FnCtx(eng.taint, fn)      # only for root texts
+        for n in fn.walk():
+            k = n.get("k")
+            if k == "DeclStmt":
+                for d in n.get("decls", []):
+                    if d.get("init") is not None:
+                        self.defs.append((d["decl"], "set", d["init"]))
+                        if eng.is_index_y(_unwrap(d["init"])):
+                            self.idx_y.add(d["decl"])
+            elif k == "BinaryOperator" and n.get("op") == "=":
+                t0 = _unwrap(n["c"][0])
+                if t0.get("k") == "DeclRefExpr" and t0["ref"].get("dk") == "local":
+                    self.defs.append((t0["ref"]["decl"], "set", n["c"][1]))
+            elif k == "CompoundAssignOperator":
+                t0 = _unwrap(n["c"][0])
+                if t0.get("k") == "DeclRefExpr" and t0["ref"].get("dk") == "local":
+                    self.defs.append((t0["ref"]["decl"], "op", n))
+        for _ in range(10):
+            changed = False
+            for decl, kind, node in self.defs:
+                st = self.ev(node) if kind == "set" else self.ev_compound(node)
+                new = _sjoin(self.locals.get(decl, "N"), st)
+                if new != self.locals.get(decl, "N"):
+                    self.locals[decl] = new
+                    changed = True
+            if not changed:
+                break
+
+    def ev_compound(self, n):
+        a, b = self.ev(n["c"][0]), self.ev(n["c"][1])
+        return _smul(a, b) if n.get("op") in ("*=", "/=") else _sadd(a, b)
+
+    def ev(self, n):
+        if n is None:
+            return "N"
+        eng = self.eng
+        k = n.get("k")
+        c = n.get("c") or []
+        if k in ("IntegerLiteral", "FloatingLiteral", "CXXBoolLiteralExpr", "StringLiteral", "CharacterLiteral"):
+            return "N"
+        if k == "DeclRefExpr":
+            r = n["ref"]
+            if r.get("dk") == "local":
+                return self.locals.get(r.get("decl"), "N")
+            if r.get("dk") == "parm":
+                i = self.param_index.get(r.get("decl"))
+                return eng.param_state(self.fn, i) if i is not None else "N"
+            return "N"
+        if k == "MemberExpr":
+            if n.get("mk") == "field" and norm_type(n.get("t")) in _NUMERIC:
+                return eng.field_state(strip_targs(n.get("owner", "")), n.get("member"))
+            return "N"
+        if k in ("BinaryOperator",) and len(c) == 2:
+            op = n.get("op")
+            if op in ("*", "/"):
+                return _smul(self.ev(c[0]), self.ev(c[1]))
+            if op in ("+", "-"):
+                return _sadd(self.ev(c[0]), self.ev(c[1]))
+            if op == "=":
+                return self.ev(c[1])
+            if op == ",":
+                return self.ev(c[1])
+            return "N"
+        if k == "CompoundAssignOperator":
+            return self.ev_compound(n)
+        if k == "UnaryOperator" and c:
+            return self.ev(c[0]) if n.get("op") in ("-", "+") else "N"
+        if k == "ConditionalOperator" and len(c) == 3:
+            return _sjoin(self.ev(c[1]), self.ev(c[2]))
+        if k in _CASTS and c:
+            return self.ev(c[0])
+        if k == "InitListExpr":
+            st = "N"
+            for x in c:
+                st = _sjoin(st, self.ev(x))
+            return st
+        if is_call(n):
+            return eng.call_state(self, n)
+        return "N"
+
+
+class SignEngine:
+    def __init__(self, fx, table, in_scope):
+        self.fx = fx
+        self.table = table
+        self.in_scope = in_scope
+        self.taint = TaintEngine(fx, table, in_scope)
+        y = table["ysign"]
+        self.y_calls = set(y["y_calls"])
+        self.y_value_calls = set(y["y_value_calls"])
+        self.y_types = set(y["y_types"])
+        self.sign_calls = set(y["sign_calls"])
+        self.index_y_calls = set(y["index_y_calls"])
+        self.vector_subscript = set(y["vector_subscript"])
+        self.ctxs = {}
+        self._field = {}
+        self._param = {}
+        self._active = set()
+        self._done = set()
+        self.changed = False
+
+    def begin_round(self):
+        self.ctxs = {}
+        self._done = set()
+        self._active = set()
+        self.changed = False
+
+    def ctx(self, fn):
+        c = self.ctxs.get(fn.key)
+        if c is None:
+            c = self.ctxs[fn.key] = SignCtx.__new__(SignCtx)
+            c.locals = {}
+            SignCtx.__init__(c, self, fn)
+        return c
+
+    def _fix(self, store, key, compute):
+        if key in self._done or key in self._active:
+            return store.get(key, "N")
+        self._active.add(key)
+        try:
+            st = compute()
+        finally:
+            self._active.discard(key)
+        st = "S" if st == "S" else "N"       # only the sign factor travels through fields / parameters
+        old = store.get(key, "N")
+        new = _sjoin(old, st)
+        if new != old:
+            self.changed = True
+        store[key] = new
+        self._done.add(key)
+        return new
+
+    def field_state(self, owner, name):
+        def compute():
+            st = "N"
+            for f, rhs in self.taint.field_defs().get((owner, name), []):
+                if isinstance(rhs, tuple):
+                    continue
+                st = _sjoin(st, self.ctx(f).ev(rhs))
+            return st
+        return self._fix(self._field, (owner, name), compute)
+
+    def param_state(self, fn, i):
+        if norm_type(fn.params[i].get("t")) not in _NUMERIC:
+            return "N"
+
+        def compute():
+            st = "N"
+            for caller, n in self.taint.calls_by_key().get(fn.key, []):
+                args = self.taint.value_args(n)
+                if i < len(args):
+                    st = _sjoin(st, self.ctx(caller).ev(args[i]))
+            return st
+        return self._fix(self._param, (fn.key, i), compute)
+
+    def is_index_y(self, n):
+        return n is not None and is_call(n) and strip_targs(n.get("callee") or "") in self.index_y_calls
+
+    def call_state(self, c, n):
+        callee = strip_targs(n.get("callee") or "")
+        if callee in self.sign_calls:
+            return "S"
+        if callee in self.y_calls:
+            return "Y"
+        if callee in self.y_value_calls:
+            obj = F.call_object(n)
+            if obj is not None and base_type(_unwrap(obj).get("t")) in self.y_types:
+                return "Y"
+            return "N"
+        if callee in self.vector_subscript and n.get("k") == "CXXOperatorCallExpr":
+            for a in self.taint.value_args(n):
+                a0 = _unwrap(a)
+                if self.is_index_y(a0):
+                    return "Y"
+                if a0.get("k") == "DeclRefExpr" and a0["ref"].get("decl") in c.idx_y:
+                    return "Y"
+            return "N"
+        if n.get("k") in ("CXXConstructExpr", "CXXTemporaryObjectExpr", "CXXFunctionalCastExpr") and \
+                norm_type(n.get("t")) in _NUMERIC:
+            a = n.get("c") or []
+            return c.ev(a[0]) if len(a) == 1 else "N"
+        return "N"
+
+
+_ARITH_PARENT_OPS = {"+", "-", "*", "/"}
+
+
+def _consumer(fn, n):
+    """Where the value of numeric expression n goes: None if it stays inside arithmetic or a local,
+    else (kind, description, consumer node)."""
+    p = fn.parent(n)
+    if p is None:
+        return None
+    k = p.get("k")
+    c = p.get("c") or []
+    if k == "BinaryOperator":
+        op = p.get("op")
+        if op in _ARITH_PARENT_OPS or op == ",":
+            return None
+        if op == "=":
+            if c[0] is n:
+                return None
+            t0 = _unwrap(c[0])
+            if t0.get("k") == "DeclRefExpr" and t0["ref"].get("dk") == "local":
+                return None
+            return ("store", "stored into %s" % F.expr_text(c[0]), p)
+        return None                      # comparisons, logic
+    if k == "CompoundAssignOperator":
+        if c[0] is n:
+            return None
+        t0 = _unwrap(c[0])
+        if t0.get("k") == "DeclRefExpr" and t0["ref"].get("dk") == "local":
+            return None
+        return ("store", "accumulated into %s" % F.expr_text(c[0]), p)
+    if k == "UnaryOperator":
+        return None if p.get("op") in ("-", "+") else ("skip", "", p)
+    if k == "ConditionalOperator":
+        return None if (len(c) == 3 and c[0] is not n) else ("skip", "", p)
+    if k in _CASTS or k == "InitListExpr":
+        return None
+    if k == "DeclStmt":
+        return ("skip", "", p)
+    if k == "ReturnStmt":
+        return ("return", "returned", p)
+    if is_call(p):
+        if k in ("CXXConstructExpr", "CXXTemporaryObjectExpr", "CXXFunctionalCastExpr") and \
+                norm_type(p.get("t")) in _NUMERIC:
+            return None
+        if k == "CXXOperatorCallExpr" and p.get("op") == "<<":
+            return ("stream", "written to the stream", p)
+        if k != "CXXConstructExpr" and c and c[0] is n:
+            return ("skip", "", p)
+        return ("arg", "passed to %s" % F.short(strip_targs(p.get("callee") or "?")), p)
+    return ("skip", "", p)
+
+
+def run_ysign(ctx, rule="R-YSIGN"):
+    fx = ctx.facts
+    table = engine.load_table("esc.json")
+    spec = table["ysign"]
+    scope = Scope(spec["scope"])
+    eng = SignEngine(fx, table, scope)
+    for a in spec.get("anchors", []):
+        fx.fn(a)
+    fns = sorted((f for f in fx.functions.values() if scope(f) and f.body is not None),
+                 key=lambda f: (f.file, f.line, f.key))
+    exempt = spec.get("internal_system_outputs", {})
+    rounds = 0
+    while True:
+        rounds += 1
+        eng.begin_round()
+        found = []
+        for fn in fns:
+            c = eng.ctx(fn)
+            for n in fn.walk():
+                if norm_type(n.get("t")) not in _NUMERIC:
+                    continue
+                cons = _consumer(fn, n)
+                if cons is None or cons[0] == "skip":
+                    continue
+                st = c.ev(n)
+                if st in ("Y", "R"):
+                    found.append((fn, c, n, st, cons))
+        if not eng.changed:
+            break
+        if rounds > 10:
+            raise AnalysisBroken("R-YSIGN: sign propagation did not converge")
+    seen = {}
+    n_ok = n_bad = 0
+    restored_in = {}          # fn.key -> number of restored outputs
+    by_fn = {}
+    for item in found:
+        by_fn.setdefault(item[0].key, []).append(item)
+    used_exempt = set()
+    for items in by_fn.values():
+        fn = items[0][0]
+        ctx.saw(fn)
+        counts = {}
+        texts = []
+        for fn, c, n, st, cons in items:
+            t = c.tctx.rtext(n)
+            texts.append(t)
+            counts[t] = counts.get(t, 0) + 1
+        ordn = {}
+        for (fn, c, n, st, cons), t in zip(items, texts):
+            key = "%s:%s" % (fn.sig, t)
+            if counts[t] > 1:
+                ordn[t] = ordn.get(t, 0) + 1
+                key += "#%d" % ordn[t]
+            if st == "R":
+                restored_in[fn.key] = restored_in.get(fn.key, 0) + 1
+            ok = st == "R"
+            why = ""
+            if not ok and key in exempt:
+                ok = True
+                why = "internal-system output: " + exempt[key]
+                used_exempt.add(key)
+            if seen.get(key) == ok:
+                continue
+            seen[key] = ok
+            detail = {"expression": c.tctx.text(n), "state": _STATE_TXT[st], "consumer": cons[1]}
+            if why:
+                detail["exempt"] = why
+            if ok:
+                n_ok += 1
+                ctx.ok(rule, key, fn.where(n), fn.short, msg=why, detail=detail)
+            else:
+                n_bad += 1
+                ctx.bad(rule, key, fn.where(n), fn.short,
+                        msg="`%s` is an internal y value (sign flipped by remove_inconsistency for inconsistent "
+                        "systems) and is %s without being multiplied by the y-sign" % (c.tctx.text(n), cons[1]),
+                        detail=detail)
+    for k in exempt:
+        if k not in used_exempt:
+            raise AnalysisBroken("R-YSIGN: exempted instance %s no longer exists - table is stale" % k)
+    # ---- sibling clause 1: a visitor whose visit(Ydiff*) restores the sign does so in visit(Y*) too
+    n_sib = 0
+    classes = {}
+    for fn in fns:
+        if fn.name == "visit" and len(fn.params) == 1 and fn.cls:
+            pt = base_type(fn.params[0].get("t"))
+            if pt in eng.y_types:
+                classes.setdefault(fn.cls, {})[pt] = fn
+
+    def reach_restored(fn, seen_f):
+        if fn.key in seen_f:
+            return 0
+        seen_f.add(fn.key)
+        tot = restored_in.get(fn.key, 0)
+        for call in fn.calls():
+            g = fx.functions.get(call.get("calleeKey"))
+            if g is not None and g.cls and fn.cls and strip_targs(g.cls) == strip_targs(fn.cls) and g.name != "visit":
+                tot += reach_restored(g, seen_f)
+        return tot
+    ytypes = sorted(eng.y_types)
+    for cls, d in sorted(classes.items()):
+        if len(d) < 2:
+            continue
+        r = {t: reach_restored(f, set()) for t, f in d.items()}
+        if not any(r.values()):
+            continue
+        for t, f in sorted(d.items()):
+            key = "%s:sibling-restores-sign" % f.sig
+            if seen.get(key) is not None:
+                continue
+            seen[key] = r[t] > 0
+            n_sib += 1
+            ctx.report(rule, key, r[t] > 0, f.where(), f.short,
+                       msg="" if r[t] > 0 else "the sibling %s multiplies its value by the y-sign, %s does not"
+                       % (", ".join(F.short(x.sig) for tt, x in d.items() if r[tt] > 0), F.short(f.sig)),
+                       detail={"restored_outputs": r[t]})
+    # ---- sibling clause 2: a type test for Ydiff is accompanied by one for Y (both are flipped)
+    n_dc = 0
+    for fn in fns + [fx.fn(a) for a in spec.get("dyncast_anchors", [])]:
+        tested = set()
+        for n in fn.walk():
+            if n.get("k") == "CXXDynamicCastExpr":
+                bt = base_type(n.get("castTo") or n.get("t"))
+                if bt in eng.y_types:
+                    tested.add(bt)
+        if not tested:
+            continue
+        key = "%s:type-tests-Y-and-Ydiff" % fn.sig
+        if key in seen:
+            continue
+        seen[key] = True
+        n_dc += 1
+        ctx.saw(fn)
+        missing = sorted(eng.y_types - tested)
+        ctx.report(rule, key, not missing, fn.where(), fn.short,
+                   msg="" if not missing else "handles %s by dynamic_cast but not %s: both observation kinds carry "
+                   "a y value whose sign remove_inconsistency flips" % (", ".join(F.short(x) for x in sorted(tested)),
+                                                                       ", ".join(F.short(x) for x in missing)))
+    fl = spec.get("floors", {})
+    ctx.floor(rule, fl.get("outputs", 1), n_ok + n_bad, "y-carrying values leaving arithmetic in writer scopes")
+    ctx.floor(rule, fl.get("restored", 1), n_ok, "y outputs multiplied by the y-sign")
+    ctx.floor(rule, fl.get("sibling", 1), n_sib, "visit(Y*)/visit(Ydiff*) sibling obligations")
+    ctx.floor(rule, fl.get("dyncast", 1), n_dc, "functions type-testing Y/Ydiff")
+    return {"outputs": n_ok + n_bad, "ok": n_ok, "bad": n_bad, "sibling": n_sib, "dyncast": n_dc, "rounds": rounds}
+
+
+def rule_ysign(ctx):
+    return run_ysign(ctx)
